@@ -97,9 +97,11 @@ def _work(job):
             if len(agg['harness']) < 3:
                 agg['harness'].append(res)
         elif st == 'ok' and len(agg['samples']) < 1:
-            agg['samples'].append(dict(
-                key=res['key'], outcome=_jsonable(res.get('outcome')),
-                detail=_jsonable(res.get('detail'))))
+            o = _jsonable(res.get('outcome'))
+            if isinstance(o, str) and len(o) > 160:
+                o = o[:160] + '...'
+            agg['samples'].append(dict(key=res['key'], outcome=o,
+                                       detail=_jsonable(res.get('detail'))))
     agg['wall'] = time.time() - t0
     return agg
 
